@@ -20,6 +20,11 @@ What is mirrored exactly (and compared byte for byte with the real code on every
   * the *lenient* decoder: slices shorter than requested are accepted (Python slicing never
     raises), trailing bytes are ignored.
 
+The transport (shm/client.py `sock.send` + `sock.recv(N)`, shm/server.py `sock.recvfrom(N)` + `sock.sendto`): one message =
+one UDP datagram. `transport`: the kernel refuses a datagram above `maxDatagram` bytes at the SENDER (EMSGSIZE); a datagram
+longer than the receiver's buffer `N` is cut to `N` bytes without any error. `wire` = encode, transport, decode; the buffer
+sizes are read from the two source files by the translator (Gen/ShmApi.lean: `shmServerRecv`, `shmClientRecv`).
+
 Bytes are `List Nat` (every element produced by the encoder is `< 256`), strings are lists of code
 points, integers are `Int` (Python ints are unbounded and may be negative).
 No Mathlib.
@@ -300,5 +305,33 @@ class of the module and its field values are in the domain of that class. (Delib
 of the tag table: dropping a class from `b2c` must not shrink the domain.) -/
 def InDomain (t : Table) (m : Msg) : Prop :=
   ∃ s, s ∈ t.msgs ∧ s.cls = m.cls ∧ s.isBase = false ∧ InDomainMsg s m.vals
+
+/-! ### the datagram transport -/
+
+/-- Largest payload of a UDP datagram over IPv4 (65535 - 8 - 20): `sendto` refuses anything longer with EMSGSIZE.
+(An assumption about the operating system; the harness measures it on a real socket on every run.) -/
+def maxDatagram : Nat := 65507
+
+inductive WireErr
+  | encode (e : Err)      -- `api.ser` raised
+  | msgsize               -- `sock.send` / `sock.sendto` raised OSError(EMSGSIZE)
+  | decode (e : Err)      -- `api.deser` raised on the receiving side
+  deriving DecidableEq, Repr
+
+/-- `send(bs)` on one side, `recv(limit)` / `recvfrom(limit)` on the other -/
+def transport (limit : Nat) (bs : Bytes) : Except WireErr Bytes :=
+  if bs.length ≤ maxDatagram then .ok (bs.take limit) else .error .msgsize
+
+/-- one message over the wire: `api.deser(recv(limit))` of `send(api.ser(m))` -/
+def wire (t : Table) (limit : Nat) (m : Msg) : Except WireErr Msg :=
+  match encode t m with
+  | .error e => .error (.encode e)
+  | .ok bs =>
+    match transport limit bs with
+    | .error e => .error e
+    | .ok bs' =>
+      match decode t bs' with
+      | .error e => .error (.decode e)
+      | .ok m' => .ok m'
 
 end EkwVerif.Codec
